@@ -146,8 +146,9 @@ pub fn common_prefix_len(left: &str, right: &str) -> usize {
 //@     left.spec_bytes().subrange(0, r as int) == right.spec_bytes().subrange(0, r as int),   // [C11,C17]
 //@     is_char_boundary(left.spec_bytes(), r as int),   // [C02,C11,C17]
 //@     // maximal: no longer common prefix ends on a character boundary of `left`
-//@     forall|p: int| r < p <= left.spec_bytes().len() && p <= right.spec_bytes().len() && is_char_boundary(left.spec_bytes(), p)
+//@     forall|p: int| r < p <= left.spec_bytes().len() && p <= right.spec_bytes().len() && #[trigger] is_char_boundary(left.spec_bytes(), p)
 //@         ==> left.spec_bytes().subrange(0, p) != right.spec_bytes().subrange(0, p),   // [C11,C17]
+//@     r == cpl(left.spec_bytes(), right.spec_bytes()),   // [C11]
     let mut accum1 = Utf8Accum::default();
 
     let mut pos = 0;
@@ -193,6 +194,7 @@ pub fn common_prefix_len(left: &str, right: &str) -> usize {
 
 //@ proof {
 //@     assert(lb.subrange(0, pos as int) =~= rb.subrange(0, pos as int));
+//@     assert(cpl_pred(lb, rb, pos as int)) by {
 //@     assert forall|p: int| pos < p <= lb.len() && p <= rb.len() && is_char_boundary(lb, p)
 //@         implies lb.subrange(0, p) != rb.subrange(0, p) by {
 //@         if p <= upto {
@@ -203,6 +205,8 @@ pub fn common_prefix_len(left: &str, right: &str) -> usize {
 //@             assert(rb.subrange(0, p)[upto] == rb[upto]);
 //@         }
 //@     }
+//@     }
+//@     lemma_cpl_unique(lb, rb, pos as int);
 //@ }
     pos
 }
